@@ -47,6 +47,7 @@ ATTR = [
  ("fix: SigMFSource panicked on a truncated archive", ["C15"]),
  ("fix: a full VectorSink busy-looped", ["C09"]),
  ("fix: SignalSourceFloat/Complex busy-looped", ["C09"]),
+ ("fix: Il2pDeframer panicked", ["C15"]),
 ]
 log = subprocess.run(["git", "-C", "/repo", "log", "--reverse", "--format=%h\t%s", "--grep", "^fix:"],
                      capture_output=True, text=True).stdout.strip().splitlines()
